@@ -87,7 +87,8 @@ func (c Config) Validate() Config {
 	}
 
 	// Clamp BackoffFactor to reasonable range
-	if validated.BackoffFactor < MinBackoffFactor {
+	// (the negated comparison also clamps NaN, which fails every ordered comparison)
+	if !(validated.BackoffFactor >= MinBackoffFactor) {
 		validated.BackoffFactor = MinBackoffFactor
 	} else if validated.BackoffFactor > MaxBackoffFactor {
 		validated.BackoffFactor = MaxBackoffFactor
